@@ -1,0 +1,862 @@
+//! Verification hook H2 (only compiled with `--cfg autosar_data_verif`).
+//!
+//! An API-compatible replacement for `parking_lot::RwLock`, built only on `std`, offering exactly what this
+//! crate uses: `new, read, write, try_read, try_write, try_read_for, try_write_for` and guards that release on drop.
+//!
+//! It adds three things:
+//!  1. every request / acquisition / failed try / release is logged (thread-local log and optional global,
+//!     thread-tagged log) with lock identity, lock class (model / file / element), mode, kind and call site;
+//!  2. a thread that blocks on a lock it already holds itself in a conflicting mode does not hang: the event
+//!     `SelfDeadlock` is recorded and the call panics with a message starting with `verif_shim: self-deadlock`;
+//!     a try that fails because of the thread's own lock is recorded as `SelfTryFail`; a read acquisition of a
+//!     lock the thread already read-holds is recorded as `RecursiveRead` (it deadlocks under writer preference
+//!     as soon as a writer queues up in between);
+//!  3. a deterministic cooperative scheduler (`run_scheduled`): the threads are real OS threads, but only one runs
+//!     at a time and every acquisition (and thread start) is a scheduling point.  Blocking follows the
+//!     writer-preferring semantics of Conc/RwLock.v (`ev_strictly_enabled`): a blocking write waits while anybody
+//!     holds the lock, a blocking read waits while a writer holds it or while a writer is queued and the lock is
+//!     held.  Tries (timed or not) never wait: the 10 ms timeout is modelled as "fails if not available now".
+//!     When no unfinished thread is enabled the scheduler reports the deadlock together with the schedule (the list
+//!     of thread choices), which can be replayed.
+//!
+//! With the cfg off this file is not part of the crate.
+use std::cell::{Cell, RefCell, UnsafeCell};
+use std::collections::HashMap;
+use std::marker::PhantomData;
+use std::ops::{Deref, DerefMut};
+use std::panic::Location;
+use std::sync::atomic::{AtomicU64, Ordering};
+use std::sync::{Condvar, Mutex, MutexGuard};
+use std::time::{Duration, Instant};
+
+/// class of the object a lock protects
+#[derive(Clone, Copy, Debug, PartialEq, Eq, Hash, PartialOrd, Ord)]
+pub enum LockClass {
+    /// `AutosarModelRaw`
+    Model,
+    /// `ArxmlFileRaw`
+    File,
+    /// `ElementRaw`
+    Element,
+    /// anything else
+    Other,
+}
+
+/// reader or writer
+#[derive(Clone, Copy, Debug, PartialEq, Eq, Hash, PartialOrd, Ord)]
+pub enum LockMode {
+    /// shared
+    Read,
+    /// exclusive
+    Write,
+}
+
+/// how the lock was requested
+#[derive(Clone, Copy, Debug, PartialEq, Eq, Hash, PartialOrd, Ord)]
+pub enum AcqKind {
+    /// `read()` / `write()`
+    Block,
+    /// `try_read()` / `try_write()`
+    Try,
+    /// `try_read_for()` / `try_write_for()`
+    TryFor,
+}
+
+/// what happened
+#[derive(Clone, Copy, Debug, PartialEq, Eq, Hash, PartialOrd, Ord)]
+pub enum EventKind {
+    /// a blocking acquisition was requested (logged before it is granted)
+    Request,
+    /// the lock was acquired (blocking or try)
+    Acquired,
+    /// a try acquisition failed
+    TryFailed,
+    /// the guard was dropped
+    Released,
+    /// a blocking acquisition conflicts with a lock held by the same thread; the call panics instead of hanging
+    SelfDeadlock,
+    /// a try acquisition failed because of a lock held by the same thread (logged in addition to `TryFailed`)
+    SelfTryFail,
+    /// a read acquisition of a lock the thread already read-holds (logged in addition to the acquisition)
+    RecursiveRead,
+}
+
+/// one logged lock event
+#[derive(Clone, Copy, Debug, PartialEq, Eq)]
+pub struct Event {
+    /// thread tag: index of the thread under `run_scheduled`, otherwise a process-unique number >= 1000
+    pub thread: u64,
+    /// what happened
+    pub kind: EventKind,
+    /// read or write
+    pub mode: LockMode,
+    /// blocking / try / timed try
+    pub acq: AcqKind,
+    /// identity of the lock (assigned at construction from a global counter)
+    pub lock: u64,
+    /// class of the protected object
+    pub class: LockClass,
+    /// source file of the acquisition (for `Released`: of the acquisition that created the guard)
+    pub file: &'static str,
+    /// source line
+    pub line: u32,
+}
+
+/// a pending request of a scheduled thread
+#[derive(Clone, Copy, Debug, PartialEq, Eq)]
+pub struct Request {
+    /// lock identity
+    pub lock: u64,
+    /// lock class
+    pub class: LockClass,
+    /// read or write
+    pub mode: LockMode,
+    /// blocking / try / timed try
+    pub acq: AcqKind,
+    /// source file
+    pub file: &'static str,
+    /// source line
+    pub line: u32,
+}
+
+/// state of one scheduled thread as seen at a scheduling point
+#[derive(Clone, Debug, PartialEq, Eq)]
+pub enum ThreadView {
+    /// waiting to start
+    Start,
+    /// waiting at an acquisition
+    Pending(Request),
+    /// done
+    Finished,
+}
+
+/// what the chooser sees at a scheduling point
+pub struct SchedPoint<'a> {
+    /// number of choices made so far
+    pub step: usize,
+    /// threads that may run now (never empty)
+    pub enabled: &'a [usize],
+    /// all threads
+    pub threads: &'a [ThreadView],
+    /// the previous choice
+    pub last: Option<usize>,
+}
+
+/// a thread that cannot proceed in a deadlocked configuration
+#[derive(Clone, Debug)]
+pub struct Blocked {
+    /// thread index
+    pub thread: usize,
+    /// what it waits for
+    pub wants: Request,
+    /// what it holds: (lock, class, mode, file, line)
+    pub holds: Vec<(u64, LockClass, LockMode, &'static str, u32)>,
+}
+
+/// result of `run_scheduled`
+#[derive(Clone, Debug, Default)]
+pub struct SchedOutcome {
+    /// the choices that were made (thread indices)
+    pub schedule: Vec<usize>,
+    /// number of enabled threads at each choice
+    pub branching: Vec<usize>,
+    /// set when no unfinished thread was enabled: all unfinished threads with what they want and hold
+    pub deadlock: Option<Vec<Blocked>>,
+    /// all events of all threads in execution order
+    pub events: Vec<Event>,
+    /// per thread: the panic message if its body panicked
+    pub panics: Vec<Option<String>>,
+    /// the chooser returned a thread that was not enabled (another one was taken instead)
+    pub diverged: bool,
+    /// a thread ran for more than the watchdog time without reaching a scheduling point
+    pub timed_out: bool,
+}
+
+// ------------------------------------------------------------------------------------------------- global state
+
+#[derive(Default)]
+struct LState {
+    writer: Option<u64>,
+    readers: Vec<u64>,
+    waiting_writers: u32,
+    // (thread, mode, file, line) of every current holding, for deadlock reports
+    holds: Vec<(u64, LockMode, &'static str, u32)>,
+    class: Option<LockClass>,
+}
+
+#[derive(Clone, Debug, PartialEq, Eq)]
+enum Status {
+    Running,
+    Start,
+    Pending(Request),
+    Finished,
+}
+
+struct SThread {
+    status: Status,
+    granted: bool,
+}
+
+struct Sched {
+    threads: Vec<SThread>,
+    abort: bool,
+}
+
+#[derive(Default)]
+struct World {
+    locks: HashMap<u64, LState>,
+    glog: Option<Vec<Event>>,
+    sched: Option<Sched>,
+}
+
+static WORLD: Mutex<Option<World>> = Mutex::new(None);
+static CV: Condvar = Condvar::new();
+static NEXT_LOCK: AtomicU64 = AtomicU64::new(1);
+static NEXT_TID: AtomicU64 = AtomicU64::new(1000);
+
+thread_local! {
+    static TID: Cell<u64> = const { Cell::new(0) };
+    static SCHED_IDX: Cell<Option<usize>> = const { Cell::new(None) };
+    static TLOG: RefCell<Option<Vec<Event>>> = const { RefCell::new(None) };
+}
+
+struct WorldGuard(MutexGuard<'static, Option<World>>);
+impl Deref for WorldGuard {
+    type Target = World;
+    fn deref(&self) -> &World {
+        self.0.as_ref().unwrap()
+    }
+}
+impl DerefMut for WorldGuard {
+    fn deref_mut(&mut self) -> &mut World {
+        self.0.as_mut().unwrap()
+    }
+}
+
+fn world() -> WorldGuard {
+    let mut g = WORLD.lock().unwrap_or_else(|e| e.into_inner());
+    if g.is_none() {
+        *g = Some(World::default());
+    }
+    WorldGuard(g)
+}
+
+fn wait(g: WorldGuard) -> WorldGuard {
+    WorldGuard(CV.wait(g.0).unwrap_or_else(|e| e.into_inner()))
+}
+
+fn wait_timeout(g: WorldGuard, d: Duration) -> WorldGuard {
+    WorldGuard(CV.wait_timeout(g.0, d).unwrap_or_else(|e| e.into_inner()).0)
+}
+
+fn my_tid() -> u64 {
+    TID.with(|t| {
+        if t.get() == 0 {
+            t.set(NEXT_TID.fetch_add(1, Ordering::Relaxed));
+        }
+        t.get()
+    })
+}
+
+fn log(w: &mut World, ev: Event) {
+    if let Some(gl) = w.glog.as_mut() {
+        gl.push(ev);
+    }
+    TLOG.with(|l| {
+        if let Some(v) = l.borrow_mut().as_mut() {
+            v.push(ev);
+        }
+    });
+}
+
+/// start (or restart) the log of the calling thread
+pub fn log_start() {
+    TLOG.with(|l| *l.borrow_mut() = Some(Vec::new()));
+}
+
+/// stop the log of the calling thread and return its events
+pub fn log_take() -> Vec<Event> {
+    TLOG.with(|l| l.borrow_mut().take().unwrap_or_default())
+}
+
+/// start (or restart) the global log (events of all threads, in execution order)
+pub fn global_log_start() {
+    world().glog = Some(Vec::new());
+}
+
+/// stop the global log and return its events
+pub fn global_log_take() -> Vec<Event> {
+    world().glog.take().unwrap_or_default()
+}
+
+/// operating mode (`run_scheduled` switches to `Scheduled` for its duration by itself)
+#[derive(Clone, Copy, Debug, PartialEq, Eq)]
+pub enum ShimMode {
+    /// real blocking with writer preference, self-conflict detection, logging
+    Plain,
+}
+
+/// select the operating mode; `Plain` is the default and the only mode that can be selected by hand
+pub fn set_mode(_mode: ShimMode) {}
+
+/// the number that the next constructed lock will get (lets a harness relate lock identities to objects)
+pub fn next_lock_id() -> u64 {
+    NEXT_LOCK.load(Ordering::Relaxed)
+}
+
+// ------------------------------------------------------------------------------------------------- the lock
+
+/// API-compatible stand-in for `parking_lot::RwLock`
+pub struct RwLock<T> {
+    id: u64,
+    class: LockClass,
+    data: UnsafeCell<T>,
+}
+
+unsafe impl<T: Send> Send for RwLock<T> {}
+unsafe impl<T: Send + Sync> Sync for RwLock<T> {}
+
+/// shared guard
+pub struct RwLockReadGuard<'a, T> {
+    lock: &'a RwLock<T>,
+    site: &'static Location<'static>,
+    acq: AcqKind,
+    _not_send: PhantomData<*const ()>,
+}
+
+/// exclusive guard
+pub struct RwLockWriteGuard<'a, T> {
+    lock: &'a RwLock<T>,
+    site: &'static Location<'static>,
+    acq: AcqKind,
+    _not_send: PhantomData<*const ()>,
+}
+
+impl<T> Deref for RwLockReadGuard<'_, T> {
+    type Target = T;
+    fn deref(&self) -> &T {
+        unsafe { &*self.lock.data.get() }
+    }
+}
+
+impl<T> Deref for RwLockWriteGuard<'_, T> {
+    type Target = T;
+    fn deref(&self) -> &T {
+        unsafe { &*self.lock.data.get() }
+    }
+}
+
+impl<T> DerefMut for RwLockWriteGuard<'_, T> {
+    fn deref_mut(&mut self) -> &mut T {
+        unsafe { &mut *self.lock.data.get() }
+    }
+}
+
+impl<T> Drop for RwLockReadGuard<'_, T> {
+    fn drop(&mut self) {
+        release(self.lock.id, self.lock.class, LockMode::Read, self.acq, self.site);
+    }
+}
+
+impl<T> Drop for RwLockWriteGuard<'_, T> {
+    fn drop(&mut self) {
+        release(self.lock.id, self.lock.class, LockMode::Write, self.acq, self.site);
+    }
+}
+
+fn classify(name: &str) -> LockClass {
+    if name.contains("AutosarModelRaw") {
+        LockClass::Model
+    } else if name.contains("ArxmlFileRaw") {
+        LockClass::File
+    } else if name.contains("ElementRaw") {
+        LockClass::Element
+    } else {
+        LockClass::Other
+    }
+}
+
+impl<T> RwLock<T> {
+    /// create a lock; it gets the next lock identity
+    pub fn new(val: T) -> Self {
+        RwLock {
+            id: NEXT_LOCK.fetch_add(1, Ordering::Relaxed),
+            class: classify(std::any::type_name::<T>()),
+            data: UnsafeCell::new(val),
+        }
+    }
+
+    /// identity of this lock
+    pub fn verif_id(&self) -> u64 {
+        self.id
+    }
+
+    /// blocking shared acquisition
+    #[track_caller]
+    pub fn read(&self) -> RwLockReadGuard<'_, T> {
+        let site = Location::caller();
+        acquire(self.id, self.class, LockMode::Read, AcqKind::Block, site, None);
+        RwLockReadGuard { lock: self, site, acq: AcqKind::Block, _not_send: PhantomData }
+    }
+
+    /// blocking exclusive acquisition
+    #[track_caller]
+    pub fn write(&self) -> RwLockWriteGuard<'_, T> {
+        let site = Location::caller();
+        acquire(self.id, self.class, LockMode::Write, AcqKind::Block, site, None);
+        RwLockWriteGuard { lock: self, site, acq: AcqKind::Block, _not_send: PhantomData }
+    }
+
+    /// shared acquisition without waiting
+    #[track_caller]
+    pub fn try_read(&self) -> Option<RwLockReadGuard<'_, T>> {
+        let site = Location::caller();
+        if acquire(self.id, self.class, LockMode::Read, AcqKind::Try, site, None) {
+            Some(RwLockReadGuard { lock: self, site, acq: AcqKind::Try, _not_send: PhantomData })
+        } else {
+            None
+        }
+    }
+
+    /// exclusive acquisition without waiting
+    #[track_caller]
+    pub fn try_write(&self) -> Option<RwLockWriteGuard<'_, T>> {
+        let site = Location::caller();
+        if acquire(self.id, self.class, LockMode::Write, AcqKind::Try, site, None) {
+            Some(RwLockWriteGuard { lock: self, site, acq: AcqKind::Try, _not_send: PhantomData })
+        } else {
+            None
+        }
+    }
+
+    /// shared acquisition with timeout
+    #[track_caller]
+    pub fn try_read_for(&self, timeout: Duration) -> Option<RwLockReadGuard<'_, T>> {
+        let site = Location::caller();
+        if acquire(self.id, self.class, LockMode::Read, AcqKind::TryFor, site, Some(timeout)) {
+            Some(RwLockReadGuard { lock: self, site, acq: AcqKind::TryFor, _not_send: PhantomData })
+        } else {
+            None
+        }
+    }
+
+    /// exclusive acquisition with timeout
+    #[track_caller]
+    pub fn try_write_for(&self, timeout: Duration) -> Option<RwLockWriteGuard<'_, T>> {
+        let site = Location::caller();
+        if acquire(self.id, self.class, LockMode::Write, AcqKind::TryFor, site, Some(timeout)) {
+            Some(RwLockWriteGuard { lock: self, site, acq: AcqKind::TryFor, _not_send: PhantomData })
+        } else {
+            None
+        }
+    }
+}
+
+impl crate::Element {
+    /// identity of the element's lock in the event log
+    pub fn verif_lock_id(&self) -> u64 {
+        self.0.verif_id()
+    }
+}
+
+impl crate::AutosarModel {
+    /// identity of the model's lock in the event log
+    pub fn verif_lock_id(&self) -> u64 {
+        self.0.verif_id()
+    }
+}
+
+impl crate::ArxmlFile {
+    /// identity of the file's lock in the event log
+    pub fn verif_lock_id(&self) -> u64 {
+        self.0.verif_id()
+    }
+}
+
+// ------------------------------------------------------------------------------------------------- acquisition
+
+fn ev(thread: u64, kind: EventKind, mode: LockMode, acq: AcqKind, lock: u64, class: LockClass, site: &'static Location<'static>) -> Event {
+    Event { thread, kind, mode, acq, lock, class, file: site.file(), line: site.line() }
+}
+
+/// does the request conflict with what thread `me` holds itself on this lock?
+fn self_conflict(ls: Option<&LState>, me: u64, mode: LockMode) -> bool {
+    match ls {
+        None => false,
+        Some(ls) => match mode {
+            LockMode::Read => ls.writer == Some(me),
+            LockMode::Write => ls.writer == Some(me) || ls.readers.contains(&me),
+        },
+    }
+}
+
+fn self_read_held(ls: Option<&LState>, me: u64) -> bool {
+    ls.is_some_and(|ls| ls.readers.contains(&me))
+}
+
+/// `ev_strictly_enabled` of Conc/RwLock.v
+fn available(ls: Option<&LState>, mode: LockMode, writer_queued: bool) -> bool {
+    match ls {
+        None => true,
+        Some(ls) => match mode {
+            LockMode::Write => ls.writer.is_none() && ls.readers.is_empty(),
+            LockMode::Read => ls.writer.is_none() && !(writer_queued && !ls.readers.is_empty()),
+        },
+    }
+}
+
+fn take(w: &mut World, lock: u64, class: LockClass, me: u64, mode: LockMode, site: &'static Location<'static>) {
+    let ls = w.locks.entry(lock).or_default();
+    ls.class = Some(class);
+    match mode {
+        LockMode::Read => ls.readers.push(me),
+        LockMode::Write => ls.writer = Some(me),
+    }
+    ls.holds.push((me, mode, site.file(), site.line()));
+}
+
+fn release(lock: u64, class: LockClass, mode: LockMode, acq: AcqKind, site: &'static Location<'static>) {
+    let me = my_tid();
+    let mut w = world();
+    let mut empty = false;
+    if let Some(ls) = w.locks.get_mut(&lock) {
+        match mode {
+            LockMode::Read => {
+                if let Some(p) = ls.readers.iter().rposition(|t| *t == me) {
+                    ls.readers.remove(p);
+                }
+            }
+            LockMode::Write => {
+                if ls.writer == Some(me) {
+                    ls.writer = None;
+                }
+            }
+        }
+        if let Some(p) = ls.holds.iter().rposition(|h| h.0 == me && h.1 == mode) {
+            ls.holds.remove(p);
+        }
+        empty = ls.writer.is_none() && ls.readers.is_empty() && ls.waiting_writers == 0;
+    }
+    if empty {
+        w.locks.remove(&lock);
+    }
+    log(&mut w, ev(me, EventKind::Released, mode, acq, lock, class, site));
+    drop(w);
+    CV.notify_all();
+}
+
+fn sched_writer_queued(s: &Sched, lock: u64, except: usize) -> bool {
+    s.threads.iter().enumerate().any(|(i, t)| {
+        i != except
+            && matches!(&t.status, Status::Pending(r) if r.lock == lock && r.mode == LockMode::Write && r.acq == AcqKind::Block)
+    })
+}
+
+/// returns true when the lock was acquired; blocking requests only return true (or panic)
+fn acquire(
+    lock: u64,
+    class: LockClass,
+    mode: LockMode,
+    acq: AcqKind,
+    site: &'static Location<'static>,
+    timeout: Option<Duration>,
+) -> bool {
+    let me = my_tid();
+    let sidx = SCHED_IDX.with(|c| c.get());
+    let mut w = world();
+    let selfc = self_conflict(w.locks.get(&lock), me, mode);
+    let recursive = mode == LockMode::Read && self_read_held(w.locks.get(&lock), me);
+    if acq == AcqKind::Block {
+        log(&mut w, ev(me, EventKind::Request, mode, acq, lock, class, site));
+    }
+    if recursive {
+        log(&mut w, ev(me, EventKind::RecursiveRead, mode, acq, lock, class, site));
+    }
+    if selfc && acq == AcqKind::Block {
+        log(&mut w, ev(me, EventKind::SelfDeadlock, mode, acq, lock, class, site));
+        drop(w);
+        panic!(
+            "verif_shim: self-deadlock: blocking {:?} acquisition of {:?} lock {} at {}:{} while the same thread holds it",
+            mode,
+            class,
+            lock,
+            site.file(),
+            site.line()
+        );
+    }
+
+    if let (Some(idx), true) = (sidx, w.sched.is_some()) {
+        // ---- scheduled thread: park, wait for the turn
+        if w.sched.as_ref().unwrap().abort {
+            drop(w);
+            panic!("verif_shim: aborted (scheduler stopped the run)");
+        }
+        let req = Request { lock, class, mode, acq, file: site.file(), line: site.line() };
+        w.sched.as_mut().unwrap().threads[idx].status = Status::Pending(req);
+        CV.notify_all();
+        loop {
+            w = wait(w);
+            let s = w.sched.as_mut().unwrap();
+            if s.threads[idx].granted {
+                s.threads[idx].granted = false;
+                s.threads[idx].status = Status::Running;
+                break;
+            }
+            if s.abort {
+                s.threads[idx].status = Status::Running;
+                drop(w);
+                panic!("verif_shim: aborted (scheduler stopped the run)");
+            }
+        }
+        let wq = sched_writer_queued(w.sched.as_ref().unwrap(), lock, idx);
+        if available(w.locks.get(&lock), mode, wq) {
+            take(&mut w, lock, class, me, mode, site);
+            log(&mut w, ev(me, EventKind::Acquired, mode, acq, lock, class, site));
+            true
+        } else {
+            // the scheduler only grants blocking requests that are available
+            assert!(acq != AcqKind::Block, "verif_shim: scheduler granted an unavailable blocking request");
+            if selfc {
+                log(&mut w, ev(me, EventKind::SelfTryFail, mode, acq, lock, class, site));
+            }
+            log(&mut w, ev(me, EventKind::TryFailed, mode, acq, lock, class, site));
+            false
+        }
+    } else {
+        // ---- plain mode: real blocking, writer preference
+        let deadline = timeout.map(|d| Instant::now() + d);
+        let mut registered_writer = false;
+        loop {
+            let wq = w.locks.get(&lock).is_some_and(|ls| ls.waiting_writers > 0) && !registered_writer;
+            if available(w.locks.get(&lock), mode, wq && mode == LockMode::Read) {
+                if registered_writer {
+                    w.locks.get_mut(&lock).unwrap().waiting_writers -= 1;
+                }
+                take(&mut w, lock, class, me, mode, site);
+                log(&mut w, ev(me, EventKind::Acquired, mode, acq, lock, class, site));
+                return true;
+            }
+            let give_up = match acq {
+                AcqKind::Block => false,
+                AcqKind::Try => true,
+                // a timed try that conflicts with the thread's own lock can never succeed: do not wait for it
+                AcqKind::TryFor => selfc || deadline.is_none_or(|d| Instant::now() >= d),
+            };
+            if give_up {
+                if registered_writer {
+                    w.locks.get_mut(&lock).unwrap().waiting_writers -= 1;
+                }
+                if selfc {
+                    log(&mut w, ev(me, EventKind::SelfTryFail, mode, acq, lock, class, site));
+                }
+                log(&mut w, ev(me, EventKind::TryFailed, mode, acq, lock, class, site));
+                return false;
+            }
+            if recursive && acq == AcqKind::Block && wq {
+                // recursive read with a writer queued in between: both wait for ever
+                log(&mut w, ev(me, EventKind::SelfDeadlock, mode, acq, lock, class, site));
+                drop(w);
+                panic!(
+                    "verif_shim: self-deadlock: recursive read of {:?} lock {} at {}:{} behind a queued writer",
+                    class,
+                    lock,
+                    site.file(),
+                    site.line()
+                );
+            }
+            if mode == LockMode::Write && acq != AcqKind::Try && !registered_writer {
+                w.locks.entry(lock).or_default().waiting_writers += 1;
+                registered_writer = true;
+            }
+            w = match deadline {
+                Some(d) => wait_timeout(w, d.saturating_duration_since(Instant::now())),
+                None => wait(w),
+            };
+        }
+    }
+}
+
+// ------------------------------------------------------------------------------------------------- scheduler
+
+fn panic_text(e: Box<dyn std::any::Any + Send>) -> String {
+    if let Some(s) = e.downcast_ref::<&str>() {
+        s.to_string()
+    } else if let Some(s) = e.downcast_ref::<String>() {
+        s.clone()
+    } else {
+        "panic".to_string()
+    }
+}
+
+/// Run the bodies as threads under the deterministic cooperative scheduler.
+///
+/// `choose` is called at every scheduling point with the enabled threads and returns the thread to run next
+/// (a value that is not enabled is replaced by the first enabled thread and `diverged` is set).
+/// `watchdog` bounds the time a thread may run between two scheduling points.
+pub fn run_scheduled(
+    bodies: Vec<Box<dyn FnOnce() + Send + 'static>>,
+    choose: &mut dyn FnMut(&SchedPoint) -> usize,
+    watchdog: Duration,
+) -> SchedOutcome {
+    let n = bodies.len();
+    let mut out = SchedOutcome { panics: vec![None; n], ..Default::default() };
+    {
+        let mut w = world();
+        assert!(w.sched.is_none(), "verif_shim: run_scheduled is not reentrant");
+        w.sched = Some(Sched {
+            threads: (0..n).map(|_| SThread { status: Status::Running, granted: false }).collect(),
+            abort: false,
+        });
+        w.glog = Some(Vec::new());
+    }
+    let mut handles = Vec::new();
+    for (idx, body) in bodies.into_iter().enumerate() {
+        handles.push(std::thread::spawn(move || {
+            TID.with(|t| t.set(idx as u64 + 1)); // thread tags 1..n (0 means "not assigned yet")
+            SCHED_IDX.with(|c| c.set(Some(idx)));
+            // scheduling point "start"
+            let mut aborted = false;
+            {
+                let mut w = world();
+                w.sched.as_mut().unwrap().threads[idx].status = Status::Start;
+                CV.notify_all();
+                loop {
+                    w = wait(w);
+                    let s = w.sched.as_mut().unwrap();
+                    if s.threads[idx].granted {
+                        s.threads[idx].granted = false;
+                        s.threads[idx].status = Status::Running;
+                        break;
+                    }
+                    if s.abort {
+                        aborted = true;
+                        break;
+                    }
+                }
+            }
+            let res = if aborted {
+                Err("verif_shim: aborted (scheduler stopped the run)".to_string())
+            } else {
+                std::panic::catch_unwind(std::panic::AssertUnwindSafe(body)).map_err(panic_text)
+            };
+            let mut w = world();
+            w.sched.as_mut().unwrap().threads[idx].status = Status::Finished;
+            drop(w);
+            CV.notify_all();
+            res.err()
+        }));
+    }
+
+    let mut last = None;
+    loop {
+        let mut w = world();
+        // wait until nobody runs
+        let t0 = Instant::now();
+        loop {
+            let s = w.sched.as_ref().unwrap();
+            if !s.threads.iter().any(|t| t.status == Status::Running) {
+                break;
+            }
+            if t0.elapsed() > watchdog {
+                out.timed_out = true;
+                break;
+            }
+            w = wait_timeout(w, Duration::from_millis(50));
+        }
+        if out.timed_out {
+            w.sched.as_mut().unwrap().abort = true;
+            drop(w);
+            CV.notify_all();
+            break;
+        }
+        let views: Vec<ThreadView> = w
+            .sched
+            .as_ref()
+            .unwrap()
+            .threads
+            .iter()
+            .map(|t| match &t.status {
+                Status::Start => ThreadView::Start,
+                Status::Pending(r) => ThreadView::Pending(*r),
+                _ => ThreadView::Finished,
+            })
+            .collect();
+        if views.iter().all(|v| *v == ThreadView::Finished) {
+            break;
+        }
+        let mut enabled = Vec::new();
+        for (i, v) in views.iter().enumerate() {
+            match v {
+                ThreadView::Start => enabled.push(i),
+                ThreadView::Pending(r) => {
+                    if r.acq != AcqKind::Block {
+                        enabled.push(i);
+                    } else {
+                        let wq = sched_writer_queued(w.sched.as_ref().unwrap(), r.lock, i);
+                        if available(w.locks.get(&r.lock), r.mode, wq) {
+                            enabled.push(i);
+                        }
+                    }
+                }
+                ThreadView::Finished => {}
+            }
+        }
+        if enabled.is_empty() {
+            // deadlock: every unfinished thread waits for a lock that will never become available
+            let mut blocked = Vec::new();
+            for (i, v) in views.iter().enumerate() {
+                if let ThreadView::Pending(r) = v {
+                    let tag = i as u64 + 1;
+                    let mut holds = Vec::new();
+                    let mut ids: Vec<&u64> = w.locks.keys().collect();
+                    ids.sort();
+                    for id in ids {
+                        let ls = &w.locks[id];
+                        for h in &ls.holds {
+                            if h.0 == tag {
+                                holds.push((*id, ls.class.unwrap_or(LockClass::Other), h.1, h.2, h.3));
+                            }
+                        }
+                    }
+                    blocked.push(Blocked { thread: i, wants: *r, holds });
+                }
+            }
+            out.deadlock = Some(blocked);
+            w.sched.as_mut().unwrap().abort = true;
+            drop(w);
+            CV.notify_all();
+            break;
+        }
+        let pt = SchedPoint { step: out.schedule.len(), enabled: &enabled, threads: &views, last };
+        let mut pick = choose(&pt);
+        if !enabled.contains(&pick) {
+            out.diverged = true;
+            pick = enabled[0];
+        }
+        out.schedule.push(pick);
+        out.branching.push(enabled.len());
+        last = Some(pick);
+        let s = w.sched.as_mut().unwrap();
+        s.threads[pick].granted = true;
+        s.threads[pick].status = Status::Running;
+        drop(w);
+        CV.notify_all();
+    }
+    if out.timed_out {
+        // a thread is stuck outside the shim: it cannot be joined; leave it behind
+        let mut w = world();
+        out.events = w.glog.take().unwrap_or_default();
+        w.sched = None;
+        return out;
+    }
+    for (i, h) in handles.into_iter().enumerate() {
+        out.panics[i] = match h.join() {
+            Ok(p) => p,
+            Err(e) => Some(panic_text(e)),
+        };
+    }
+    let mut w = world();
+    out.events = w.glog.take().unwrap_or_default();
+    w.sched = None;
+    out
+}
